@@ -243,9 +243,10 @@ class MibCompiler(object):
 
                         parsedMibs[mibInfo.name] = fileInfo, mibInfo, mibTree
 
-                        if mibname in failedMibs:
-                            del failedMibs[mibname]
-                            processed.pop(mibname, None)
+                        for goodMib in (mibname, mibInfo.name):
+                            if goodMib in failedMibs:
+                                del failedMibs[goodMib]
+                                processed.pop(goodMib, None)
 
                         mibsToParse.extend(mibInfo.imported)
 
